@@ -71,12 +71,18 @@ func runFees(j Job) *Result {
 		if r.Intn(3) == 0 {
 			cfg.Mint.EpochIdentifier = epochstypes.HourEpochID
 		}
+		if r.Intn(3) == 0 {
+			// validator powers are refreshed only once per hour: many distribution epochs see stale powers
+			cfg.Dogfood.EpochIdentifier = epochstypes.HourEpochID
+		}
+		zeroPowerVariant := r.Intn(6) == 0
 		c, err := sim.NewChain(cfg)
 		if err != nil {
 			res.Inconclusive = "chain construction failed: " + err.Error()
 			continue
 		}
 		w := ops.NewWorld(c, r)
+		w.IgnoreValSetErr = true
 		c.Watch = append(c.Watch, authtypes.NewModuleAddress(authtypes.FeeCollectorName), authtypes.NewModuleAddress(distrtypes.ModuleName))
 		for k := 0; k < 2+r.Intn(5); k++ {
 			w.AddStaker(101, sim.NewAccount(fmt.Sprintf("fstaker%d", k)).Eth.Bytes())
@@ -134,6 +140,27 @@ func runFees(j Job) *Result {
 				for n := 0; n < 1+r.Intn(4); n++ {
 					s := w.Stakers[nOps+r.Intn(len(w.Stakers)-nOps)]
 					w.Deposit(s, w.Assets[0], sdkmath.NewInt(int64(1+r.Intn(1000))))
+				}
+			}
+			// every delegator of one operator leaves within the epoch (its validator keeps last epoch's power)
+			if r.Intn(5) == 0 || (zeroPowerVariant && e == nEpochs/2) {
+				var victims []*ops.Oper
+				if zeroPowerVariant && e == nEpochs/2 {
+					victims = w.Opers // everybody: total power drops to zero
+				} else if nOps > 1 {
+					victims = []*ops.Oper{w.Opers[1+r.Intn(nOps-1)]}
+				}
+				for _, o := range victims {
+					for _, s := range w.Stakers {
+						for _, a := range w.Assets {
+							if pos := ops.Position(w.Last.Ledger, s.ID, a.ID, o.Addr()); pos.IsPositive() {
+								ctx := c.Ctx()
+								if c.App.BankKeeper.GetBalance(ctx, cfg.Gateway.Acc, "hua").Amount.IsPositive() {
+									w.Undelegate(s, a, o, pos)
+								}
+							}
+						}
+					}
 				}
 			}
 			if r.Intn(4) == 0 && len(w.Stakers) > nOps {
